@@ -77,10 +77,8 @@ func projVLA(v *rtp.VLA) Ev {
 		for _, r := range l.TargetBitrates {
 			rates = append(rates, intToDigits(r))
 		}
-		w, h, f := 0, 0, 0
-		if v.HasResolutionAndFramerate {
-			w, h, f = l.Width, l.Height, l.Framerate
-		}
+		// exported fields as they are (a stale resolution next to HasResolutionAndFramerate=false is a difference)
+		w, h, f := l.Width, l.Height, l.Framerate
 		layers = append(layers, Ev{"stream": l.RTPStreamID, "spatial": l.SpatialID, "rates": rates, "w": w, "h": h, "fps": f})
 	}
 	return Ev{"rid": v.RTPStreamID, "ns": v.RTPStreamCount, "hasres": v.HasResolutionAndFramerate, "layers": layers}
